@@ -1168,6 +1168,10 @@ func (s *ObjectStorage) DeleteOldObjectPackAndIndex(h plumbing.Hash, t time.Time
 	if err := s.dir.DeleteOldObjectPackAndIndex(h, t); err != nil {
 		return err
 	}
+	// Objects read lazily from the removed pack may still sit in the
+	// object cache; their readers would now fail on the missing file
+	// although the same objects live on in another pack.
+	s.objectCache.Clear()
 	s.muI.Lock()
 	defer s.muI.Unlock()
 
